@@ -170,6 +170,7 @@ func TestWorker(t *testing.T) {
 			}, 400, 60*time.Second, time.Now)
 			if mrec.Violation != nil && mrec.Violation.Invariant == inv {
 				rec.MinTape = tape
+				rec.Minimised = true
 				rec.MinTrace = mrec.Trace
 				rec.MinDetail = mrec.Violation.Detail
 				if rec.Probes == nil {
